@@ -34,6 +34,10 @@ pub fn c03_strategy() -> impl Strategy<Value = C03Case> {
                 .prop_map(|(cycle, delay, repeat, reverse)| Timing { cycle, delay, repeat, reverse })
         }),
         5 => (cycle_strategy(), delay_strategy(), c03_repeat_strategy(), any::<bool>()).prop_map(|(cycle, delay, repeat, reverse)| Timing { cycle, delay, repeat, reverse }),
+        // very short cycles (below f32::EPSILON seconds, down to 1e-30): "cycle duration > 0" is all the
+        // statement asks for
+        1 => (prop::sample::select(vec![2.0f32.powi(-25), 2.0f32.powi(-30), 5.0e-8, 6.0e-8, 1.0e-10, 1.0e-20, 1.0e-30]), prop::sample::select(vec![0.0f32, 0.0, 2.0f32.powi(-25), 1.0e-9, 1.0e-20]), c03_repeat_strategy(), any::<bool>())
+            .prop_map(|(cycle, delay, repeat, reverse)| Timing { cycle, delay, repeat, reverse }),
     ];
     (timing, prop::collection::vec(timespec_strategy(), 16)).prop_map(|(timing, times)| C03Case { timing, times })
 }
@@ -131,8 +135,13 @@ pub fn judge_position(tm: &Timing, t: f32, got: Got) -> Result<(bool, bool), Str
     let mut pmin = lo.pos().min(ph.pos()).min(hi.pos());
     let mut pmax = lo.pos().max(ph.pos()).max(hi.pos());
     if tm.reverse {
-        let rev = |p: &Phase| matches!(p, Phase::Active { reversing: true, .. });
-        if rev(&lo) != rev(&hi) || rev(&lo) != rev(&ph) {
+        // the peak (100 %) lies inside the window only where a forward pass turns into the reverse pass
+        // of the SAME cycle; the end of a reverse pass (next cycle, or Ended) passes through 0 %, not 100 %
+        let turn = |a: &Phase, b: &Phase| match (a, b) {
+            (Phase::Active { cycle: ca, reversing: ra, .. }, Phase::Active { cycle: cb, reversing: rb, .. }) => ca == cb && ra != rb,
+            _ => false,
+        };
+        if turn(&lo, &hi) || turn(&lo, &ph) || turn(&ph, &hi) {
             pmax = 1.0;
         }
         if cyc(&lo) != cyc(&hi) {
